@@ -83,7 +83,7 @@ fn op() -> BoxedStrategy<Op> {
         1 => (0u8..3, any::<bool>()).prop_map(|(pair, disabled)| Op::DisableSwaps { pair, disabled }),
         1 => (0u8..3).prop_map(|pair| Op::RemovePair { pair }),
         1 => (0u8..3).prop_map(|pair| Op::DrainPair { pair }),
-        2 => (0u8..4, gen::amount(1, 1u128 << 60)).prop_map(|(which, a)| Op::Donate { which, amount: Uint128::new(a) }),
+        2 => (0u8..4, prop_oneof![2 => gen::amount(1, 1u128 << 60), 2 => gen::amount(1u128 << 60, 1u128 << 100)]).prop_map(|(which, a)| Op::Donate { which, amount: Uint128::new(a) }),
         7 => (prop_oneof![3 => Just(0u64), 1 => 0u64..DAY_NS], 0u8..3).prop_map(|(late_ns, caller)| Op::NewEpoch { late_ns, caller }),
         1 => (0u8..5).prop_map(|caller| Op::ForwardFeesBy { caller }),
         1 => (0u8..3).prop_map(|user| Op::Claim { user }),
